@@ -55,6 +55,11 @@ def main(tier, seed):
                         m_.owner = hosts[0]
                         hosts[0].methods.append(m_)
                     tooltier.emit_rust.assign_abi_names(prog)
+            if i % 50 == 13 and b != "c":
+                # directed probe (known finding F58): a rust_link whose path is too short for its doc type (`rust_link(baz, FnInStruct)`)
+                ops_ = [t for t in prog.types() if t.kind == "opaque"]
+                if ops_:
+                    ops_[0].attrs.insert(0, "#[diplomat::rust_link(baz, FnInStruct)]")
             if i % 50 == 11 and b == "c":
                 # directed probe (known finding F56): two bridge modules declaring a type of the same identifier (legal Rust; C has no namespaces)
                 tooltier.same_name_namespaced(prog, random.Random("c15same/%s/%s" % (seed, i)))
